@@ -232,6 +232,14 @@ func writeC18Facts(dir string) error {
 		fmt.Fprintf(&at, "import RV.Facts.C18.T%d\n", i)
 		entries = append(entries, fmt.Sprintf("(F%d.name, F%d.d, F%d.o, F%d.imports, F%d.decls)", i, i, i, i, i))
 	}
+	// the directories that hold a go:generate artefact, each with its non-test Go files: pinned in
+	// RV.Facts.ExpectedC18.packageFiles (a package added, removed or renamed, a hand-written file put next to a
+	// generated one, all change this fact)
+	var dirFiles []string
+	for _, rel := range c18Artefacts(root) {
+		dirFiles = append(dirFiles, "("+leanBytes(rel)+", "+leanStrings(c18GoFiles(filepath.Join(root, filepath.FromSlash(rel))))+")")
+	}
+	fmt.Fprintf(&af, "namespace RV.Facts.C18\nopen RV RV.Dict RV.Gen RV.Facts.ExpectedC18\n\ndef packageFiles : List (Bytes × List Bytes) := %s\n\nend RV.Facts.C18\n", leanList(dirFiles, "  "))
 	fmt.Fprintf(&af, "namespace RV.Facts.C18\nopen RV RV.Dict RV.Gen\n\ndef all : List (Bytes × Dictionary × Options × List Bytes × List Bytes) := %s\n\n/-- the list is not vacuous: the repository ships 32 helper packages -/\ntheorem packages_present : 32 ≤ all.length := by decide\n\nend RV.Facts.C18\n", leanList(entries, "  "))
 	at.WriteString("import RV.Facts.C18.AllFacts\n")
 	if err := writeFile(filepath.Join(dir, "AllFacts.lean"), []byte(af.String())); err != nil {
@@ -253,10 +261,27 @@ func writeC18Facts(dir string) error {
 		}, rel)
 		fmt.Fprintf(&tt, "theorem tie_%s : ExpectedC18.agrees F%d.d F%d.o F%d.imports F%d.decls = true := T%d.tie\n", id, i, i, i, i, i)
 	}
-	tt.WriteString("theorem tie_packages_present : 32 ≤ all.length := packages_present\n\nend RV.Facts.C18\n")
+	tt.WriteString("theorem tie_packages_present : 32 ≤ all.length := packages_present\n")
+	tt.WriteString("/-- the generated artefacts are exactly the pinned packages, and no other non-test Go file lies next to them -/\ntheorem tie_packageFiles : packageFiles = ExpectedC18.packageFiles := by decide +kernel\n/-- the per-package ties above range over exactly the pinned helper packages, in order -/\ntheorem tie_packageNames : all.map (·.1) = ExpectedC18.helperPackages := by decide +kernel\n\nend RV.Facts.C18\n")
 	tp := filepath.Join(filepath.Dir(dir), "TieC18.lean")
 	if cur, err := os.ReadFile(tp); err == nil && string(cur) == tt.String() {
 		return nil
 	}
 	return os.WriteFile(tp, []byte(tt.String()), 0o644)
+}
+
+// c18GoFiles lists the non-test Go files of a directory, sorted
+func c18GoFiles(dir string) []string {
+	ents, err := os.ReadDir(dir)
+	if err != nil {
+		return nil
+	}
+	var out []string
+	for _, e := range ents {
+		if !e.IsDir() && strings.HasSuffix(e.Name(), ".go") && !strings.HasSuffix(e.Name(), "_test.go") {
+			out = append(out, e.Name())
+		}
+	}
+	sort.Strings(out)
+	return out
 }
